@@ -69,7 +69,8 @@ pub(crate) fn compare_values(left: &CalcResult, right: &CalcResult) -> i32 {
         (CalcResult::Number(value1), CalcResult::Number(value2)) => {
             let value1 = to_excel_precision(*value1, 15);
             let value2 = to_excel_precision(*value2, 15);
-            if (value2 - value1).abs() < f64::EPSILON {
+            // both sides are already rounded to 15 significant digits
+            if value1 == value2 {
                 return 0;
             }
             if value1 < value2 {
